@@ -185,6 +185,14 @@ pub fn run_job(job: &Value) -> Value {
 }
 
 pub fn main() -> i32 {
+    unsafe {
+        // die with the parent; cap memory (8 GB) and CPU (10 min) as a backstop against runaway cases
+        libc::prctl(libc::PR_SET_PDEATHSIG, libc::SIGKILL);
+        let mem = libc::rlimit { rlim_cur: 8 << 30, rlim_max: 8 << 30 };
+        libc::setrlimit(libc::RLIMIT_AS, &mem);
+        let cpu = libc::rlimit { rlim_cur: 600, rlim_max: 600 };
+        libc::setrlimit(libc::RLIMIT_CPU, &cpu);
+    }
     install_panic_hook();
     let stdin = std::io::stdin();
     let stdout = std::io::stdout();
